@@ -140,7 +140,7 @@ def run(tier):
         if not any(e["op"] == "done" for e in ce) and not any(e["op"] in ("Crash", "Hang") for e in ce):
             trace.append({"op": "Crash", "input": name, "why": "case did not finish"}); owner.append(cid)
     # ---- the command-line tools under ASan/UBSan
-    tools = [["unzck", "-c"], ["unzck", "-c", "--dict"], ["zck_read_header", "-c", "-f"], ["zck_read_header"], ["zck_gen_zdict"]]
+    tools = [["unzck", "-c"], ["unzck", "-c", "--dict"], ["unzck", "-c", "--header"], ["zck_read_header", "-c", "-f"], ["zck_read_header"], ["zck_gen_zdict"]]
     tsel = list(range(len(inputs)))
     if tier == "quick":
         tsel = rnd.sample(tsel, min(len(tsel), 260))
